@@ -348,7 +348,20 @@ func runHistory(ops []cliOp) (problems []string, canon string, applicable bool) 
 			}
 			// a partially applied file that is not the newest revision (an out-of-order file that failed
 			// under non-linear order): "the partially applied file first" - it must at least stay pending.
+			// (`migrate set v` declares everything up to v applied: a partial row at or below a version
+			// that was set later in the history is a left-over, not a file to resume.)
+			setUpTo := 0
+			for _, o := range ops {
+				if o.Kind == "set" {
+					if n, _ := strconv.Atoi(o.V); n > setUpTo {
+						setUpTo = n
+					}
+				}
+			}
 			for i, r := range revs {
+				if rv, _ := strconv.Atoi(r.V); rv <= setUpTo {
+					continue
+				}
 				if r.Applied != r.Total && i != len(revs)-1 && w.files[r.V] != nil && op.Kind != "set" {
 					st := status(wk, dirURL, dbURL)
 					found := false
